@@ -31,7 +31,7 @@ CLAIMED = {
    text="each numeric/duration field is abstracted to {default, p1, p2, zero, negative}, pointers to {nil, set}; UpdateExportOptions, "
         "UpdateTuningOptions and UpdatePolicyOptions are transcribed as ApplyImpl (parameterised by the repaired findings) and the property as "
         "Verdict (zero/negative/nil take the construction default, positive values are reported, unnamed fields keep their value, a rejected "
-        "update changes nothing) plus Serviceable. TLC checks every reachable configuration of a reduced field set exhaustively, then enumerates "
+        "update changes nothing, whatever Squash it carried: empty, the same mode, another mode, the same mode in another spelling) plus Serviceable. TLC checks every reachable configuration of a reduced field set exhaustively, then enumerates "
         "all sequences of one and two and a residue class of sequences of three update templates; the harness applies them to real instances "
         "(the first whole-struct template is the argument of New) and logs GetExportOptions, attribute-cache and worker-pool sizes in force and "
         "a LOOKUP, a 16 KiB READ and a 100-byte WRITE through the real handler after every call; TLC validates every recorded step.",
@@ -46,7 +46,8 @@ CLAIMED = {
         "handshake below TLS 1.2), Mutual (RequireAndVerify admits only certificates of the configured CA) and Rotation over all configurations x "
         "clients x rotate/reload interleavings (reload through settings fetched after Listen, fetched before Listen and kept, or the caller's "
         "object). The configurations include InsecureSkipVerify and a cipher-suite list, which must not change what the listener admits. The same operators generate the vectors; the harness starts a real TLS listener per configuration "
-        "(certificates made with crypto/x509), performs real handshakes with clients restricted to each version range and certificate kind, "
+        "(certificates made with crypto/x509), performs real handshakes with clients restricted to each version range and certificate kind (none, self-signed, configured CA, another private CA, a CA "
+        "planted in the process's system trust store), "
         "counts a handshake as completed only when a NULL call is answered, rotates certificates on disk and reloads through "
         "GetExportOptions().TLS; TLC validates every recorded outcome (verdict: the three clauses; drift: exact outcome and version).",
    note="crypto/tls itself is trusted; cipher-suite selection is left at library defaults; "
